@@ -172,4 +172,30 @@ Definition requesting_stack (pi : proc_in) : outcome (option thread_out) :=
   | None => Ret None
   | Some i => do t <- idx (fst r) i; Ret (Some t)
   end.
+
+(* print_json's "crashing_thread" (process_state.rs 1140-1171): `if let Some(f) = self.threads[requesting_thread].frames.first()`,
+   then `output["threads"].as_array().unwrap()[requesting_thread]` (one array entry per call stack) and `frames[0]` of its
+   "frames" array (one entry per frame).  Some (threads_index, the frame that gets the registers). *)
+Definition json_crashing_thread (outs : list thread_out) (req : option nat) : outcome (option (nat * C05.Model.frame)) :=
+  match req with
+  | None => Ret None
+  | Some i =>
+      do t <- idx outs i;
+      match o_frames t with
+      | [] => Ret None
+      | _ :: _ =>
+          do jt <- idx (map o_frames outs) i;
+          do f0 <- idx jt 0;
+          Ret (Some (i, f0))
+      end
+  end.
+Definition render_crashing_thread (pi : proc_in) : outcome (option (nat * C05.Model.frame)) :=
+  do r <- process_threads pi; json_crashing_thread (fst r) (snd r).
 End Process.
+
+(* all frames of a ProcessState, and the largest stack memory any thread can be given *)
+Definition total_frames (outs : list thread_out) : nat := fold_right (fun o n => (length (o_frames o) + n)%nat) 0%nat outs.
+Definition own_stacks (pi : proc_in) : list region :=
+  flat_map (fun t => match th_stack t with Some m => [m] | None => [] end) (pi_threads pi).
+Definition max_region_bytes (pi : proc_in) : nat :=
+  list_max (map (fun m => length (r_bytes m)) (pi_memory pi ++ own_stacks pi)).
